@@ -13,7 +13,7 @@
      spellings are oracle behaviour, exercised by the correspondence run only. *)
 From Coq Require Import NArith Arith List.
 From BU Require Import Base.Exn Base.Bytes Gen.Bip39Consts Gen.WlBip39 Model.BinStr Model.Bip39 Model.Bip39Spec.
-From BU Require Lemmas.Bip39 Lemmas.Bip39Norm Lemmas.Bip39WlAux Lemmas.Bip39WordlistsOk Lemmas.Bip39Autodetect Lemmas.Bip39Props.
+From BU Require Lemmas.Bip39 Lemmas.Bip39Norm Lemmas.Bip39WlAux Lemmas.Bip39WordlistsOk Lemmas.Bip39WlOverlap Lemmas.Bip39Autodetect Lemmas.Bip39Props.
 Import ListNotations.
 Open Scope N_scope.
 
@@ -35,8 +35,8 @@ Print Assumptions wordlists_ok.
    at the same index in both lists) and english/french (100 common words, each at different indices) *)
 Theorem wordlists_overlap :
   length bip39_langs = 9%nat /\
-  (forall j k, (j < k)%nat -> (k < 9)%nat -> Bip39WordlistsOk.overlapping j k = false ->
-     Bip39WlAux.disjoint (Bip39WordlistsOk.lang_at j) (Bip39WordlistsOk.lang_at k)) /\
+  (forall j k, (j < k)%nat -> (k < 9)%nat -> Bip39WlOverlap.overlapping j k = false ->
+     Bip39WlAux.disjoint (Bip39WlAux.lang_at j) (Bip39WlAux.lang_at k)) /\
   (length (Bip39WlAux.shared wl_bip39_chinese_simplified wl_bip39_chinese_traditional) = 1275%nat /\
    Bip39WlAux.compatible wl_bip39_chinese_simplified wl_bip39_chinese_traditional) /\
   (length (Bip39WlAux.shared wl_bip39_english wl_bip39_french) = 100%nat /\
